@@ -87,8 +87,15 @@ func (d *dagStoreImpl) UpdateSpec(name string, spec []byte) error {
 	if !exists(loc) {
 		return fmt.Errorf("%w: %s", errDOGFileNotExist, loc)
 	}
-	err = os.WriteFile(loc, spec, defaultPerm)
-	if err != nil {
+	// Write the new text next to the file and rename it into place, so that
+	// the definition is never seen (or left behind) half written.
+	tmp := loc + ".tmp"
+	if err := os.WriteFile(tmp, spec, defaultPerm); err != nil {
+		_ = os.Remove(tmp)
+		return err
+	}
+	if err := os.Rename(tmp, loc); err != nil {
+		_ = os.Remove(tmp)
 		return err
 	}
 	d.metaCache.Invalidate(loc)
